@@ -7,6 +7,7 @@ use std::process::{Child, Command, ExitCode, Stdio};
 
 use clap::Parser;
 
+use slice_codec::buffer::InputSource;
 use slice_codec::decoder::Decoder;
 use slice_codec::encoder::Encoder;
 
@@ -116,6 +117,13 @@ fn handle_generator_response(response_payload: Vec<u8>, output_dir: &Option<Stri
     let mut slice_decoder = Decoder::from(&response_payload);
     let generated_files: Vec<definition_types::GeneratedFile> = slice_decoder.decode()?;
     let generator_diagnostics: Vec<definition_types::Diagnostic> = slice_decoder.decode()?;
+
+    // The response consists of these 2 sequences and nothing else. Anything after them means the generator printed
+    // something that isn't part of a response (or failed half-way), so none of it can be trusted.
+    if slice_decoder.remaining() != 0 {
+        let message = format!("{} unexpected byte(s) after the end of the response", slice_decoder.remaining());
+        return Err(std::io::Error::new(std::io::ErrorKind::InvalidData, message));
+    }
 
     // TODO: Convert the diagnostics we decode from the generator, into diagnostics that slicec can handle.
     //       To do this requires re-working the diagnostic API fairly substantially.
